@@ -17,3 +17,21 @@ pub assume_specification<T, F>[ Option::<T>::get_or_insert_with ](a: &mut Option
         old(a).is_some() ==> *r == old(a).unwrap(),
         old(a).is_none() ==> f.ensures((), *r),
         *final(a) == Some(*final(r));
+
+// rule R11: `vec![a]` / `vec![a, b]` become calls of these helpers (bodies verified, not trusted)
+pub fn vec1<T>(a: T) -> (v: Vec<T>)
+    ensures v@ =~= seq![a]
+{
+    let mut v = Vec::new();
+    v.push(a);
+    v
+}
+
+pub fn vec2<T>(a: T, b: T) -> (v: Vec<T>)
+    ensures v@ =~= seq![a, b]
+{
+    let mut v = Vec::new();
+    v.push(a);
+    v.push(b);
+    v
+}
